@@ -2,9 +2,22 @@
     sequence of API calls on one registry, each carrying the implementation's observed result;
     [c08_ok] replays the sequence on the model (state: lazily registered names, parse cache) and
     is true when every observation is reproduced. *)
-From Coq Require Import Ascii String.
+From Coq Require Import Ascii String Uint63.
 From PintV Require Import Model.UC Model.Eval Model.Registry Model.UCRun Model.Names.
 Open Scope string_scope.
+
+(** compact string literals for the harness: seven bytes per 63-bit integer, little endian, no
+    zero byte (Coq 8.16 elaborates ["…"] literals character by character, which dominated the
+    cost of a shard) *)
+Fixpoint bytes_of (fuel : nat) (x : int) : string :=
+  match fuel with
+  | O => EmptyString
+  | S f => if Uint63.eqb x 0 then EmptyString
+           else String (Ascii.ascii_of_N (Z.to_N (Uint63.to_Z (Uint63.land x 255)))) (bytes_of f (Uint63.lsr x 8))
+  end.
+Definition s_ (l : list int) : string :=
+  fold_right (λ x acc, String.append (bytes_of 7 x) acc) EmptyString l.
+Arguments s_ l%uint63_scope.
 
 Definition ekind_eqb (a b : ekind) : bool :=
   match a, b with
@@ -36,31 +49,31 @@ Inductive nop :=
 (** with case-insensitive lookup the order of candidates that differ only in the real spelling
     chosen is that of a Python set: any of them may come first.  [cand_first] puts a chosen
     candidate in front for the string asked (only). *)
-Definition cand_first (nr : nreg) (cs : bool) (s : string) (c0 : string * string) : string → list (string * string) :=
-  λ s', if String.eqb s' s then c0 :: n_cand nr cs s' else n_cand nr cs s'.
-Definition choices (nr : nreg) (cs : bool) (s : string) : list (string → list (string * string)) :=
-  if cs then [n_cand nr cs]
-  else match n_cand nr cs s with
-       | [] => [n_cand nr cs]
-       | l => map (cand_first nr cs s) l
+Definition cand_first (nr : nreg) (c : cfg) (cs : bool) (s : string) (c0 : string * string) : string → list (string * string) :=
+  λ s', if String.eqb s' s then c0 :: n_cand nr (n_hid nr c) cs s' else n_cand nr (n_hid nr c) cs s'.
+Definition choices (nr : nreg) (c : cfg) (cs : bool) (s : string) : list (string → list (string * string)) :=
+  if cs then [n_cand nr (n_hid nr c) cs]
+  else match n_cand nr (n_hid nr c) cs s with
+       | [] => [n_cand nr (n_hid nr c) cs]
+       | l => map (cand_first nr c cs s) l
        end.
+Definition gname (nr : nreg) (c : cfg) cand s := g_get_name (n_reg nr) (c_symexact c) (n_hid nr c) (c_lazyfix c) cand s.
+Definition gsymbol (nr : nreg) (c : cfg) cand s := g_get_symbol (n_reg nr) (c_symexact c) (n_hid nr c) cand s.
 (** the choice under which the model reproduces the observed answer (first one), if any *)
 Definition pick_name (nr : nreg) (c : cfg) (cs : bool) (s : string) (exp : ures string) :=
-  find (λ cand, ures_eqb String.eqb (ures_of (g_get_name (n_reg nr) (c_symexact c) cand s)) exp) (choices nr cs s).
+  find (λ cand, ures_eqb String.eqb (ures_of (gname nr c cand s)) exp) (choices nr c cs s).
 Definition pick_symbol (nr : nreg) (c : cfg) (cs : bool) (s : string) (exp : ures string) :=
-  find (λ cand, ures_eqb String.eqb (ures_of (g_get_symbol (n_reg nr) (c_symexact c) cand s)) exp) (choices nr cs s).
+  find (λ cand, ures_eqb String.eqb (ures_of (gsymbol nr c cand s)) exp) (choices nr c cs s).
 
 Definition nstep (c : cfg) (nr : nreg) (o : nop) : nreg * bool :=
   match o with
   | OParse cs s exp =>
       let cs := default (c_case c) cs in
-      (nr, if cs then cands_eqb (n_cand nr cs s) exp else cands_perm (n_cand nr cs s) exp)
+      (nr, if cs then cands_eqb (n_cand nr (n_hid nr c) cs s) exp else cands_perm (n_cand nr (n_hid nr c) cs s) exp)
   | OName cs s exp =>
       let cs := default (c_case c) cs in
       match pick_name nr c cs s exp with
-      | Some cand =>
-          (if String.eqb s "dimensionless" then nr
-           else NReg (g_register (n_reg nr) (c_symexact c) cand s) (n_casei nr) (n_cache nr), true)
+      | Some cand => (n_register_with nr c cand s, true)
       | None => (n_register nr c cs s, false)
       end
   | OSymbol cs s exp =>
@@ -68,16 +81,15 @@ Definition nstep (c : cfg) (nr : nreg) (o : nop) : nreg * bool :=
       (nr, match pick_symbol nr c cs s exp with Some _ => true | None => false end)
   | OAll s ep en es =>
       if c_case c then
-        let l := n_cand nr true s in
-        let cand := λ s', if String.eqb s' s then l else n_cand nr true s' in
-        (if String.eqb s "dimensionless" then nr
-         else NReg (g_register (n_reg nr) (c_symexact c) cand s) (n_casei nr) (n_cache nr),
+        let l := n_cand nr (n_hid nr c) true s in
+        let cand := λ s', if String.eqb s' s then l else n_cand nr (n_hid nr c) true s' in
+        (n_register_with nr c cand s,
          cands_eqb l ep
-         && ures_eqb String.eqb (ures_of (g_get_name (n_reg nr) (c_symexact c) cand s)) en
-         && ures_eqb String.eqb (ures_of (g_get_symbol (n_reg nr) (c_symexact c) cand s)) es)
+         && ures_eqb String.eqb (ures_of (gname nr c cand s)) en
+         && ures_eqb String.eqb (ures_of (gsymbol nr c cand s)) es)
       else
         (n_register nr c false s,
-         cands_perm (n_cand nr false s) ep
+         cands_perm (n_cand nr (n_hid nr c) false s) ep
          && match pick_name nr c false s en with Some _ => true | None => false end
          && match pick_symbol nr c false s es with Some _ => true | None => false end)
   | OUnits text toks ad cs exp =>
